@@ -46,7 +46,7 @@ EXHAUSTIVE_PART = "label <-> number conversion is enumerated over all 2756 admis
 _FLOOR_Q = {"label.roundtrip": 2000, "label.param-setter": 2000, "label.collision": 2000, "group.core": 200, "group.block": 4000, "group.boundary-exact-burnup": 1000,
             "group.boundary-exact-temperature": 200, "group.temperature-helper": 2000, "core.rep": 1000, "core.unchanged": 4000, "rep.nd-block-mean": 500,
             "rep.nd-component-mean": 250, "rep.cylinder-component-mean": 200, "rep.nuclide-temperature": 1200, "rep.component-temperature": 1500, "rep.minmax": 2000,
-            "rep.common-value": 150, "rep.duplicate": 400, "rep.rescale": 400, "rep.burnup": 800, "rep.median": 300, "rep.median-odd": 200, "rep.unchanged": 3000,
+            "rep.common-value": 150, "rep.duplicate": 400, "rep.rescale": 400, "rep.collection-reused": 400, "rep.burnup": 800, "rep.median": 300, "rep.median-odd": 200, "rep.unchanged": 3000,
             "rep.filter-active": 350, "rep.fallback-expected": 40,
             # duct-heterogeneous cylinder, slab, environment groups after createRepresentativeBlocks(), second grouping (smallest count over seeds 0-5 in brackets)
             "rep.ducthet-component-mean": 150, "rep.ducthet-nuclide-temperature": 150, "rep.ducthet-differs-from-whole-block": 120,  # [365, 365, 334]
@@ -909,6 +909,38 @@ def do_reps(spec, rec):
         base = judge_representative(rec, cfg, blocks, cands, rep, dict(bc.avgNucTemperatures), nucs, w, where, exact_comp_temperature=same_area)
         nontrivial = len(cands) >= 2 and (not st["agree"] or len({b.getHeight() for b in cands}) > 1)
         rec.case(sig, nontrivial=nontrivial, sample=dict(w, nuclides=nucs[:8]) if i < 2 else None)
+        # ---- the same collection object given other members (same count) and asked again: it answers for the members it holds now
+        if rng.random() < .5:
+            try:
+                others = []
+                for b in blocks:
+                    d = copy.deepcopy(b)
+                    d.name = b.name + "r"
+                    tw[id(d)] = tw[id(b)]
+                    for c in d:
+                        c.changeNDensByFactor(2.0)
+                    d.p.percentBu = b.p.percentBu * 1.5 + 1.0
+                    others.append(d)
+                how = rng.choice(["slice-assignment", "item-assignment", "clear-and-extend", "remove-and-append"])
+                if how == "slice-assignment":
+                    bc[:] = others
+                elif how == "item-assignment":
+                    for j, d in enumerate(others):
+                        bc[j] = d
+                elif how == "clear-and-extend":
+                    del bc[:]
+                    bc.extend(others)
+                else:
+                    for b, d in zip(blocks, others):
+                        bc.remove(b)
+                        bc.append(d)
+                with quiet():
+                    rep4 = bc.createRepresentativeBlock()
+                rec.hit("rep.collection-reused")
+                cands4 = [d for d in others if is_candidate(tw[id(d)], cfg.valid)]
+                judge_representative(rec, cfg, others, cands4, rep4, dict(bc.avgNucTemperatures), nucs, dict(w, collection_reused=how), where + " (collection reused)", exact_comp_temperature=same_area)
+            except Exception as e:
+                rec.crash("createRepresentativeBlock/collection-reused/%s" % rep_kind, e, w)
         if rep_kind == "Median" or not base:
             continue
         # ---- metamorphic 1: every member duplicated
